@@ -13,7 +13,7 @@ import (
 // callees whose effect is keyed by their arguments or commutative (frozen, repository specific)
 var mapRangeSinks = regexp.MustCompile(`^(delete|len|cap|copy|` +
 	`Trie\.(TryUpdate|TryDelete|TryGet|Hash)|SecureTrie\.(TryUpdate|TryDelete|Hash|Commit)|` +
-	`Database\.(insert|Insert|insertPreimage|InsertPreimage|reference|Reference|dereference|Dereference|commit|uncache|Node|TrieDB)|` +
+	`Database\.(insert|Insert|insertPreimage|InsertPreimage|reference|Reference|dereference|Dereference|commit|uncache|Node|TrieDB|secureKey|Get|Has)|` +
 	`Batch\.(Put|ValueSize|Write|Reset)|Putter\.Put|` +
 	`StateDB\.(updateStateObject|deleteStateObject|getStateObject|setStateObject|MarkStateObjectDirty|setError|AddBalance|SetBalance|SetCode|SetNonce|SetState)|` +
 	`stateObject\.(updateRoot|CommitTrie|updateTrie|deepCopy|empty|setError|Address|CodeHash|Code|getTrie)|` +
